@@ -3574,7 +3574,11 @@ class Hex(Adapter):
     """
     def _decode(self, obj, context, path):
         if isinstance(obj, int):
-            return HexDisplayedInteger.new(obj, "0%sX" % (2 * self.subcon._sizeof(context, path)))
+            try:
+                width = 2 * self.subcon._sizeof(context, path)
+            except SizeofError:
+                width = 0   # an integer of variable width (VarInt, ZigZag) is displayed without zero padding
+            return HexDisplayedInteger.new(obj, "0%sX" % (width,))
         if isinstance(obj, bytes):
             return HexDisplayedBytes(obj)
         if isinstance(obj, dict):
